@@ -11,11 +11,8 @@ PROPERTY = 'C13'
 
 
 def contracts(tier):
-    try:
-        from . import strategies
-    except ImportError:
-        return []
-    return strategies.c13_contracts(tier)
+    from . import strategies
+    return strategies.all_contracts(tier)
 
 
 def native_checks(tier):
@@ -25,4 +22,10 @@ def native_checks(tier):
                     'harness/nodes_native.py', ['reduplicate', 7 if t else 6],
                     bound=f'forests <= {7 if t else 6} nodes (<= 3 trees), '
                     'one class of structurally equal positions shared'),
+        NativeCheck('C13/native/orchestration',
+                    ['ddsmt.strategy_ddmin._apply_mutator',
+                     'ddsmt.strategy_hierarchical.reduce'],
+                    'harness/orch.py', ['all', 10 if not t else 40],
+                    bound='ids of every input handed to Producer / '
+                    'TaskGenerator in scripted runs'),
     ]
